@@ -859,6 +859,13 @@ func validateExpressionAttributes(exprNames map[string]string, exprValues map[st
 		return nil
 	}
 
+	// a placeholder stands for an attribute name, and an attribute name has at least one character
+	for placeholder, name := range exprNames {
+		if name == "" {
+			return &smithy.GenericAPIError{Code: "ValidationException", Message: "ExpressionAttributeNames contains invalid value: Empty attribute name for key " + placeholder}
+		}
+	}
+
 	flattenNames := getKeysFromExpressionNames(exprNames)
 	flattenValues := getKeysFromExpressionValues(exprValues)
 
